@@ -264,11 +264,23 @@ class Resolver:
                 if isinstance(e.op, ast.Div) or "pyfloat" in da | db:
                     return {Src("pyfloat", None, (), "arithmetic")}
                 return {Src("pyint", None, (), "arithmetic")}
+            # a float literal (or float-valued scalar) combined with something of unknown type is float-valued
+            if (da <= {"pyfloat"} and all(x == "?" for x in db)) or (db <= {"pyfloat"} and all(x == "?" for x in da)):
+                return {Src("pyfloat", None, (), "arithmetic with a float scalar")}
             # array (op) scalar keeps array dtype for double; result is a fresh C-contiguous array
             arr = a if not da <= scal else b
+            known = {"double", "complex128", "int64", "intc", "int_", "int64-or-double"}
+            if arr is a and not (da & known) and (db & known):
+                arr = b  # the side with an established array dtype is the array
             other = db if arr is a else da
+            # sources of the other operand that are scalars the user of the public API passes in (type unknown)
+            other_api = [o for o in (b if arr is a else a) if o.dtype == "?" and "public API input" in o.why]
             out = set()
             for s in arr:
+                if s.dtype in ("int64", "intc", "int_") and other_api and not isinstance(e.op, ast.Div):
+                    # integer array (op) a scalar of the caller: integer when the caller passes an integer, double
+                    # when a float -- the dtype follows the caller's scalar
+                    out.add(Src("int64-or-double", s.contig, s.shape, f"integer array combined with a caller-supplied scalar ({other_api[0].why[:60]}): the dtype follows the type of that scalar"))
                 if s.dtype == "?" and other <= {"pyint", "pybool"} and isinstance(e.op, ast.Mult):
                     # unknown * 1: the `flag * 1` idiom -> python int / numpy bool->int
                     out.add(Src("pyint?", None, (), f"({core.src(e)})"))
@@ -277,6 +289,10 @@ class Resolver:
                     out.add(Src(s.dtype if not ("pyfloat" in other and s.dtype != "complex128") else "double", s.contig, s.shape, f"arith({s.why})"))
                 elif s.dtype in ("int64", "intc", "int_") and (isinstance(e.op, ast.Div) or "pyfloat" in other):
                     out.add(Src("double", s.contig, s.shape, f"arith({s.why})"))
+                elif s.dtype in ("int64", "intc", "int_") and other_api:
+                    pass  # handled below, per source of the scalar
+                elif s.dtype == "int64-or-double":
+                    out.add(Src("double" if "pyfloat" in other else "int64-or-double", s.contig, s.shape, s.why))
                 else:
                     out.add(Src("?", None, None, f"arith on {s.dtype}"))
             return out
@@ -330,6 +346,9 @@ class Resolver:
                 else:
                     shp = None  # a name or expression holding the shape: rank not visible here
             return {Src(dt, contig, shp, f"{f}(dtype={dt})")}
+        if f in ("np.atleast_1d", "np.atleast_2d", "np.squeeze") and c.args:
+            # the same buffer with length-1 axes added / removed: dtype and memory order of the argument
+            return {Src(s.dtype, s.contig, None, f"{f}({s.why})") for s in self.resolve(c.args[0], fn, cls, depth + 1)}
         if f in ("np.zeros_like", "np.empty_like", "np.ones_like"):
             dtn = self.kw(c, "dtype")
             inner = self.resolve(c.args[0], fn, cls, depth + 1)
@@ -369,6 +388,13 @@ class Resolver:
             if dtn is None:
                 if f == "np.linspace":
                     return {Src("double", True, None, "np.linspace")}
+                kinds = set()
+                for a_ in c.args:
+                    kinds |= {s_.dtype for s_ in self.resolve(a_, fn, cls, depth + 1)}
+                if "pyfloat" in kinds:
+                    return {Src("double", True, None, "np.arange with a float argument")}
+                if kinds and kinds <= {"pyint", "pybool"}:
+                    return {Src("int64", True, None, "np.arange of integers")}
                 return unk("np.arange without dtype (depends on the argument types)")
             dt = self.dtype_of_node(dtn, fn, cls)
             shp = (core.src(c.args[0]),) if f == "np.arange" and len(c.args) == 1 else None
